@@ -145,6 +145,14 @@ namespace pl
         K_RS,
         K_N
     };
+    // fraction of the weighted-compound worlds whose third (R^1) component has weight 0: such a component does not count in the
+    // distance but is part of every state (samplers must still write it, copies must still carry it). Set by the engine.
+    inline double &zeroWeightCmpFraction()
+    {
+        static double f = 0.0;
+        return f;
+    }
+
     static const char *KIND_NAME[] = {"R2", "SE2", "R3", "SE3", "R2xSO2xR1", "R6", "Dubins", "ReedsShepp"};
 
     struct Obst
@@ -349,7 +357,12 @@ namespace pl
                 w->whead = rng.logUni(0.1, 2.0);
                 sp->addSubspace(r2, w->wpos);
                 sp->addSubspace(std::make_shared<ob::SO2StateSpace>(), w->whead);
-                sp->addSubspace(r1, rng.logUni(0.1, 2.0));
+                {
+                    // (the draw order is kept: the weight is drawn first, the zero-weight coin only when the engine asks for it)
+                    double w3 = rng.logUni(0.1, 2.0);
+                    if (zeroWeightCmpFraction() > 0 && rng.coin(zeroWeightCmpFraction())) w3 = 0.0;
+                    sp->addSubspace(r1, w3);
+                }
                 sp->lock();
                 w->tracker = sp->tr;
                 w->space = sp;
